@@ -5,30 +5,41 @@ Model: `Rustic/Model/Restore.lean` (one file's contents: `add_file` matching, `s
 rule; destination path joining and the path check of the repaired `collect_and_prepare`).  All statements are for every
 pre-existing file content (identical, modified, truncated, longer, anything), every blob list, every option set.
 
-* `restore_exact_partial` — with verification on, or size/mtime differing, the file ends as the snapshot's content,
-   **provided** `sparse` is off or the destination file did not exist.  The excluded point is real (DESIGN §7 #13, known
-   finding): `sparse_over_existing_data_witness`.  The full statement (any prior content with `sparse`) is false of the code.
+* `restore_exact` — with verification on, or size/mtime differing, the file ends as the snapshot's content, for every
+   prior content and every option set.  (Was `restore_exact_partial` with the hypothesis "sparse is off or the file did
+   not exist": DESIGN §7 #13 was a genuine defect and is repaired — `sparse_over_existing_data_repaired`.)
 * `accepted_by_size_and_mtime_witness` — the clause "(with verification … or their size/mtime differing)" is needed.
 * `path_confined` — every snapshot path the repaired code accepts (`refused = false`) stays below the destination, for
    every base; `hostile_names_refused` / the `decide`d witnesses show `..`, absolute names and `a/../..` are refused
    and would have left the destination (unrepaired code: DESIGN §7 #14, fixed by 9ba0b0c).
-The merge-walk (extra entries / `delete`) has no theorem yet; it is covered by the `tree` oracle of the harness.
+* `mergewalk_actions` — the merge-walk of `collect_and_prepare` (`Model/RestoreWalk.lean`), for EVERY destination listing, node
+   stream, comparison function and option set: every destination entry is disposed of exactly once (matched / additional /
+   hidden below an additional directory) and `process_node` runs exactly once per node, both in stream order; an additional
+   entry is removed iff `delete ∧ ¬dry_run` (`mergewalk_removes_iff_delete`).  `mergewalk_classes` — with both streams sorted
+   by the comparison (what WalkDir's `sort_by_file_name` and the tree order give): `additional` ⇒ no node has that path or
+   the node there has another type; `exists = false` ⇒ every destination entry at that path is hidden or was disposed of as
+   additional (type mismatch — as repaired, see known_findings.d/C14.json); `exists = true` / `matched` ⇒ an entry with an
+   equal path (and, for `matched`, a compatible type) exists.
+* `to_packs_covers_reads` — for every `RestorePlan` (every sequence of `add_file` calls, every matching pattern, every
+   coalescing limits) each pack the reader threads of `restore_contents` read is in `to_packs()`, the list handed to
+   `warm_up_wait`; `to_packs_only_reads` is the converse.  Reused by C16 (`warmup_before_read`).
 -/
 import Rustic.Model.Restore
+import Rustic.Lemmas.RestoreWalk
 namespace Rustic.Props.C14
 open Rustic.Restore
 
 /-! ### contents -/
 
-theorem seg_nonsparse {o : Opts} (h : o.sparse = false) (base : Bytes) (m : Option Bytes) (pos : Nat) (b : Bytes) :
-    seg o base m pos b = b := by
+theorem seg_written {o : Opts} {fresh : Bool} (h : (o.sparse && fresh) = false) (base : Bytes) (m : Option Bytes)
+    (pos : Nat) (b : Bytes) : seg o fresh base m pos b = b := by
   unfold seg; simp [h]
 
-theorem segs_nonsparse {o : Opts} (h : o.sparse = false) (base : Bytes) (m : Option Bytes) (pos : Nat)
-    (blobs : List Bytes) : (segs o base m pos blobs).flatten = blobs.flatten := by
+theorem segs_written {o : Opts} {fresh : Bool} (h : (o.sparse && fresh) = false) (base : Bytes) (m : Option Bytes)
+    (pos : Nat) (blobs : List Bytes) : (segs o fresh base m pos blobs).flatten = blobs.flatten := by
   induction blobs generalizing pos with
   | nil => rfl
-  | cons b rest ih => simp [segs, seg_nonsparse h, ih]
+  | cons b rest ih => simp [segs, seg_written h, ih]
 
 theorem allZero_eq_replicate {b : Bytes} (h : allZero b = true) : b = List.replicate b.length 0 := by
   induction b with
@@ -38,11 +49,11 @@ theorem allZero_eq_replicate {b : Bytes} (h : allZero b = true) : b = List.repli
     have hr : allZero rest = true := h.2
     rw [List.length_cons, List.replicate_succ, h.1, ← ih hr]
 
-theorem seg_zero_base (o : Opts) (n pos : Nat) (b : Bytes) (hfit : pos + b.length ≤ n) :
-    seg o (List.replicate n 0) none pos b = b := by
+theorem seg_zero_base (o : Opts) (fresh : Bool) (n pos : Nat) (b : Bytes) (hfit : pos + b.length ≤ n) :
+    seg o fresh (List.replicate n 0) none pos b = b := by
   unfold seg
   simp only [blobMatches]
-  by_cases hz : (o.sparse && allZero b) = true
+  by_cases hz : (o.sparse && fresh && allZero b) = true
   · simp only [hz, if_true]
     have hb : allZero b = true := by simp at hz; exact hz.2
     rw [List.drop_replicate, List.take_replicate]
@@ -50,20 +61,25 @@ theorem seg_zero_base (o : Opts) (n pos : Nat) (b : Bytes) (hfit : pos + b.lengt
     rw [this]; exact (allZero_eq_replicate hb).symm
   · simp [hz]
 
-theorem segs_zero_base (o : Opts) (n pos : Nat) (blobs : List Bytes) (hfit : pos + blobs.flatten.length ≤ n) :
-    (segs o (List.replicate n 0) none pos blobs).flatten = blobs.flatten := by
+theorem segs_zero_base (o : Opts) (fresh : Bool) (n pos : Nat) (blobs : List Bytes)
+    (hfit : pos + blobs.flatten.length ≤ n) :
+    (segs o fresh (List.replicate n 0) none pos blobs).flatten = blobs.flatten := by
   induction blobs generalizing pos with
   | nil => rfl
   | cons b rest ih =>
     simp only [List.flatten_cons, List.length_append] at hfit
     simp only [segs, List.flatten_cons]
-    rw [seg_zero_base o n pos b (by omega), ih (pos + b.length) (by omega)]
+    rw [seg_zero_base o fresh n pos b (by omega), ih (pos + b.length) (by omega)]
 
-/-- **restore_exact_partial.**  Missing hypothesis for the full statement: with `sparse`, a destination file that
-already exists (see the witness below). -/
-theorem restore_exact_partial (o : Opts) (old : Option Bytes) (mtimeEq : Bool) (blobs : List Bytes)
-    (hcheck : o.verify = true ∨ mtimeEq = false ∨ (matchingFile old blobs.flatten.length).isSome = false)
-    (hsparse : o.sparse = false ∨ old = none) :
+/-- truncate-then-extend leaves zeros only, whatever the file held -/
+theorem allocate_fresh (old : Bytes) (n : Nat) : allocate old true n = List.replicate n 0 := by
+  simp [allocate, setLength]
+
+/-- **restore_exact** (no longer `_partial`: the sparse rule was repaired, see known_findings.d/C14.json).  For every
+prior content of the destination file, every blob list and every option set — `sparse` included — the file ends as the
+snapshot's content, when verification is on or the file's size or mtime differs from the node's. -/
+theorem restore_exact (o : Opts) (old : Option Bytes) (mtimeEq : Bool) (blobs : List Bytes)
+    (hcheck : o.verify = true ∨ mtimeEq = false ∨ (matchingFile old blobs.flatten.length).isSome = false) :
     restoreFile o old mtimeEq blobs = some blobs.flatten := by
   unfold restoreFile
   simp only
@@ -91,29 +107,34 @@ theorem restore_exact_partial (o : Opts) (old : Option Bytes) (mtimeEq : Bool) (
       · rw [h] at c; cases c
       · rw [h] at b; cases b
     simp only [h1, if_false]
-    rcases hsparse with hs | hs
-    · rw [segs_nonsparse hs]
-    · subst hs
-      simp only [Option.getD_none, setLength, List.take_nil, List.nil_append, List.length_nil, Nat.sub_zero, matchingFile]
-      rw [segs_zero_base o _ 0 blobs (by omega)]
+    cases hm : matchingFile old blobs.flatten.length with
+    | none =>
+      simp only [Option.isNone_none, allocate_fresh]
+      rw [segs_zero_base o true _ 0 blobs (by omega)]
+    | some f =>
+      simp only [Option.isNone_some]
+      rw [segs_written (by simp)]
 
 /-- a fresh destination is always restored exactly, for every option set -/
 theorem restore_fresh_exact (o : Opts) (mtimeEq : Bool) (blobs : List Bytes) :
     restoreFile o none mtimeEq blobs = some blobs.flatten :=
-  restore_exact_partial o none mtimeEq blobs (Or.inr (Or.inr (by simp [matchingFile]))) (Or.inr rfl)
+  restore_exact o none mtimeEq blobs (Or.inr (Or.inr (by simp [matchingFile])))
 
-/-- DESIGN §7 #13 (open): `--sparse` over a file holding non-zero bytes — the all-zero blob is skipped, the old bytes
-stay; verification does not help.  Replayed on the real code: `corpus/C14/witnesses.ops`. -/
-theorem sparse_over_existing_data_witness :
-    restoreFile { verify := true, sparse := true } (some [0xff, 0xff, 0xff, 0xff]) false [[0, 0, 0, 0]] =
-      some [0xff, 0xff, 0xff, 0xff] := by decide
+/-- DESIGN §7 #13, **repaired**: `--sparse` over a file holding non-zero bytes.  The unrepaired rule skipped the write
+of every all-zero blob, so the old bytes stayed (`ffffffff` on the first input); the repaired code writes zeros into a
+reused file and truncates a file of another size first.  Replayed on the real code: `corpus/C14/witnesses.ops`. -/
+theorem sparse_over_existing_data_repaired :
+    restoreFile { verify := true, sparse := true } (some [0xff, 0xff, 0xff, 0xff]) false [[0, 0, 0, 0]] = some [0, 0, 0, 0] ∧
+    restoreFile { verify := true, sparse := true } (some [0xff, 0xff, 0xff, 0xff, 0xff, 0xff]) false [[0, 0, 0, 0]] =
+      some [0, 0, 0, 0] ∧
+    restoreFile { verify := true, sparse := true } (some [0xff]) false [[0, 0], [1, 2]] = some [0, 0, 1, 2] := by decide
 
 /-- without verification a file of the right size and mtime is accepted unread (hence the clause in the statement) -/
 theorem accepted_by_size_and_mtime_witness :
     restoreFile { verify := false, sparse := false } (some [9, 9]) true [[1, 2]] = some [9, 9] := by decide
 
 example : restoreFile { verify := false, sparse := false } (some [9, 9, 9]) true [[1], [2]] = some [1, 2] := by decide
-example : restoreFile { verify := true, sparse := true } (some [1, 7, 7, 7]) false [[1, 2], [0, 0]] = some [1, 2, 7, 7] := by decide
+example : restoreFile { verify := true, sparse := true } (some [1, 7, 7, 7]) false [[1, 2], [0, 0]] = some [1, 2, 0, 0] := by decide
 
 /-! ### confinement -/
 
@@ -181,5 +202,103 @@ theorem hostile_names_escape :
 /-- a name containing a separator is accepted and stays inside (it is restored as a nested path) -/
 example : refused (comps ['a', '/', 'b']) = false ∧
     confined (comps ['/', 't', '/', 'd', 'e', 's', 't']) (comps ['a', '/', 'b']) = true := by decide
+
+/-! ### merge-walk (`collect_and_prepare`) -/
+
+section walk
+open Rustic.RestoreWalk
+variable {P : Type}
+
+/-- **mergewalk_actions.**  For every destination listing, node stream, comparison function and option set: the walk
+disposes of every destination entry exactly once (as `matched`, `additional` or `skipped` = below an additional directory,
+which is never entered) in listing order, calls `process_node` exactly once per node in stream order, and hands to
+`remove_dir`/`remove_file` exactly the additional entries if `delete ∧ ¬dry_run` and nothing otherwise. -/
+theorem mergewalk_actions (c : Cfg P) (ds : List (DEnt P)) (ns : List (NEnt P)) :
+    dstOf (walk c ds ns) = ds.map (·.path) ∧
+    nodesOf (walk c ds ns) = ns.map (fun n => (n.path, n.kind)) ∧
+    removedOf (walk c ds ns) = (if c.delete && !c.dryRun then additionalOf (walk c ds ns) else []) :=
+  ⟨walk_dst c ds ns, walk_nodes c ds ns, removedOf_eq _ _ (walk_removed_flag c ds ns)⟩
+
+/-- nothing is removed without `delete`, nor in a dry run -/
+theorem mergewalk_removes_iff_delete (c : Cfg P) (ds : List (DEnt P)) (ns : List (NEnt P)) :
+    (c.delete = false ∨ c.dryRun = true → removedOf (walk c ds ns) = []) ∧
+    (c.delete = true ∧ c.dryRun = false → removedOf (walk c ds ns) = additionalOf (walk c ds ns)) := by
+  have h := (mergewalk_actions c ds ns).2.2
+  constructor
+  · rintro (hd | hd) <;> simp [h, hd]
+  · rintro ⟨h1, h2⟩; simp [h, h1, h2]
+
+/-- **mergewalk_classes.**  What the classes mean when both streams are sorted by the walk's comparison (a strict total
+order): (1) `additional p` ⇒ no node has path `p`, or the node at `p` has a type the entry does not fit; (2) a node
+reported `exists = false` ⇒ every destination entry at its path is hidden below an additional directory or was itself
+disposed of as additional (type mismatch); (3) `exists = true` ⇒ some destination entry has that path; (4) `matched p` ⇒
+a node with that path and a fitting type. -/
+theorem mergewalk_classes (c : Cfg P) (L : LawfulCmp c.cmp) (ds : List (DEnt P)) (ns : List (NEnt P))
+    (hd : SortedD c ds) (hn : SortedN c ns) :
+    (∀ p isDir r, Ev.additional p isDir r ∈ walk c ds ns →
+      (∀ n ∈ ns, n.path ≠ p) ∨ (∃ n ∈ ns, ∃ d ∈ ds, n.path = p ∧ d.path = p ∧ mismatch n.kind d.kind = true)) ∧
+    (∀ p k, Ev.node p k false ∈ walk c ds ns → ∀ e ∈ ds, e.path = p →
+      Ev.skipped p ∈ walk c ds ns ∨ ∃ isDir r, Ev.additional p isDir r ∈ walk c ds ns) ∧
+    (∀ p k, Ev.node p k true ∈ walk c ds ns → ∃ d ∈ ds, d.path = p) ∧
+    (∀ p, Ev.matched p ∈ walk c ds ns → ∃ d ∈ ds, ∃ n ∈ ns, d.path = p ∧ n.path = p ∧ mismatch n.kind d.kind = false) := by
+  refine ⟨walk_additional_sound c L ds ns hd hn, walk_tocreate_sound c L ds ns hd hn, ?_, ?_⟩
+  · intro p k h
+    obtain ⟨d, hd', hq⟩ := walk_exist_sound c ds ns p k h
+    exact ⟨d, hd', (L.eq_iff _ _).1 hq⟩
+  · intro p h
+    obtain ⟨d, hd', n, hn', h1, h2, h3⟩ := walk_matched_sound c ds ns p h
+    exact ⟨d, hd', n, hn', h1, by rw [← (L.eq_iff _ _).1 h2]; exact h1, h3⟩
+
+/-- non-vacuity: paths are numbers, the children of directory `d` are `10·d … 10·d+9`.  Destination: dir 1 (with 10, 11),
+file 2, file 3; snapshot: file 2, dir 3, file 4; `--delete`. -/
+def exCfg (delete : Bool) : Cfg Nat :=
+  { cmp := compare, under := fun d p => decide (10 * d ≤ p ∧ p < 10 * d + 10), delete := delete, dryRun := false }
+
+example : walk (exCfg true) [⟨1, .dir⟩, ⟨10, .file⟩, ⟨11, .file⟩, ⟨2, .file⟩, ⟨3, .file⟩] [⟨2, .file⟩, ⟨3, .dir⟩, ⟨4, .file⟩] =
+    [.additional 1 true true, .skipped 10, .skipped 11, .matched 2, .node 2 .file true,
+     .additional 3 false true, .node 3 .dir false, .node 4 .file false] := by
+  simp [walk, existingEvs, skipSplit, mismatch, exCfg, compare, compareOfLessAndEq]
+
+/-- non-vacuity of the hypotheses of `mergewalk_classes`: the example comparison is lawful and both example streams are sorted -/
+example : LawfulCmp (exCfg true).cmp :=
+  { eq_iff := fun a b => by simp [exCfg, Nat.compare_eq_eq]
+    lt_trans := fun a b c h1 h2 => by
+      simp only [exCfg, Nat.compare_eq_lt] at h1 h2 ⊢; omega
+    gt_iff := fun a b => by simp [exCfg, Nat.compare_eq_gt, Nat.compare_eq_lt] }
+
+example : SortedD (exCfg true) [⟨1, .dir⟩, ⟨2, .file⟩, ⟨3, .file⟩] ∧ SortedN (exCfg true) [⟨2, .file⟩, ⟨3, .dir⟩, ⟨4, .file⟩] := by
+  simp [SortedD, SortedN, exCfg, Nat.compare_eq_lt]
+
+end walk
+
+/-! ### RestorePlan: the warm-up list -/
+
+section plan
+open Rustic.RestoreWalk
+
+/-- **to_packs_covers_reads.**  Every pack the reader threads of `restore_contents` read from the repository is in
+`RestorePlan::to_packs()` — the list `restore_repository` hands to `warm_up_wait` before reading — for every plan and all
+coalescing limits. -/
+theorem to_packs_covers_reads (hole limit : Nat) (r : RInfo) : ∀ p ∈ packReads hole limit r, p ∈ toPacks r :=
+  packReads_subset_toPacks hole limit r
+
+/-- … in particular for the plan built by any sequence of `add_file` calls -/
+theorem to_packs_covers_reads_of_add_file (hole limit : Nat) (files : List (List Blob)) :
+    ∀ p ∈ packReads hole limit (build files), p ∈ toPacks (build files) :=
+  packReads_subset_toPacks hole limit (build files)
+
+/-- the converse: only packs that are read are warmed up -/
+theorem to_packs_only_reads (hole limit : Nat) (r : RInfo) : ∀ p ∈ toPacks r, p ∈ packReads hole limit r :=
+  toPacks_subset_packReads hole limit r
+
+/-- non-vacuity: file 0 = blobs (pack 7 @0, pack 7 @40 matching, pack 9 @0); file 1 = the pack-7 @40 blob not matching.
+The blob at pack 7 @40 has a matching location ⇒ read from the existing file unless coalesced into the group of pack 7 @0. -/
+def exFiles : List (List Blob) :=
+  [[⟨7, ⟨0, 40, 8⟩, false⟩, ⟨7, ⟨40, 40, 8⟩, true⟩, ⟨9, ⟨0, 40, 8⟩, false⟩], [⟨7, ⟨40, 40, 8⟩, false⟩]]
+
+example : toPacks (build exFiles) = [7, 9] ∧ packReads 0 1000 (build exFiles) = [7, 9] ∧
+    readsOf (packInfos 0 10 (build exFiles)) = [.pack 7 0 40, .file 0 8 8, .pack 9 0 40] := by decide
+
+end plan
 
 end Rustic.Props.C14
